@@ -725,3 +725,27 @@ def c18p(ctx):
         ctx.check(pre or own, 'KMLRenderer.render:href#%d:escaped' % (i + 1), 'the href is escaped (by the server for the whole URL, or here)', rnd, node,
                   fail='the href %s is written into the KML document without escape_html: the host of the request ends up raw in the XML' % c[:60])
     ctx.check(True, 'KMLServer.kml:url-source', 'url handed to the renderer: %s' % ('escaped by the server' if pre else 'raw, escaped per href'), srv)
+
+
+@rule('C18.q', floor=1)
+def c18q(ctx):
+    """every request gets an answer: the request object is built *before* the catch-all of the application, so its constructor must
+    not assume optional CGI variables.  PEP 3333 lets a server omit PATH_INFO, QUERY_STRING and every HTTP_* variable: in
+    Request.__init__ they are read with `.get(..)` (or after the constructor stored them itself), never by plain subscript"""
+    fn = ctx.fn('mapproxy/request/base.py:Request.__init__')
+    OPTIONAL = ('PATH_INFO', 'QUERY_STRING', 'CONTENT_TYPE', 'CONTENT_LENGTH', 'SCRIPT_NAME')
+    g = fn.cfg
+    bad = []
+    for x in fn.walk():
+        if isinstance(x, ast.Subscript) and isinstance(x.ctx, ast.Load) and isinstance(x.value, ast.Name) and x.value.id in ('environ', 'env'):
+            k = const_value(x.slice)
+            if isinstance(k, str) and (k in OPTIONAL or k.startswith('HTTP_')):
+                n = g.node_for(x)
+                stores = g.find_stmts(lambda s: isinstance(s, ast.Assign) and any(isinstance(t, ast.Subscript) and unparse(t.value) == x.value.id and
+                                                                                  const_value(t.slice) == k for t in s.targets))
+                present = g.guarded(n, lambda at: at.op == 'in' and k in at.text, True)
+                if not present and not any(g.dominates(s_, n) and s_ != n for s_ in stores):
+                    bad.append("%s[%r]" % (x.value.id, k))
+    ctx.check(not bad, 'Request.__init__:optional-variables-read-with-default', 'optional CGI variables are read with a default', fn,
+              fail='Request.__init__ indexes the environ with a key a server may omit (%s): the KeyError is raised outside the catch-all and the '
+                   'request gets no response' % ', '.join(sorted(set(bad))))
